@@ -191,35 +191,41 @@ Proof.
   rewrite (NumR.nabs_R (x - y)), (NumR.nabs_R y) in H. exact H.
 Qed.
 
-Definition all_true4 : list bool := [true; true; true; true].
+Definition all_true5 : list bool := [true; true; true; true; true].
 
 Section Trace.
 Variables (nS nA : nat) (P Rw : list (list (list Q))) (av : list (list bool)) (ab : list bool)
           (ini : list Q) (g eps : Q) (ordl : list (list nat)) (tol : Q) (h : list Q)
-          (ops : list (lop * Q)) (solI : list bool) (VI : list Q).
+          (ops : list (lop * Q)) (solI : list bool) (VI : list Q) (actI : list nat).
 
 Definition tmR : mdp R := mk_mdp nS nA (map3 Q2R P) (map3 Q2R Rw) av ab (map Q2R ini) (Q2R g).
 
 Hypothesis Hrpl :
-  @replay_check Q NumQ (mk_mdp nS nA P Rw av ab ini g) eps (ordf ordl) tol h ops solI VI = all_true4.
+  @replay_check Q NumQ (mk_mdp nS nA P Rw av ab ini g) eps (ordf ordl) tol h ops solI VI actI = all_true5.
 
 (* the recorded operation sequence is a run of the abstract machine (all guards hold) that ends
-   in the labels the implementation reports and, up to tol, in its values *)
+   in the labels the implementation reports, up to tol in its values, and whose recorded
+   greedy actions are the actions the implementation returns at the labelled states *)
 Theorem main_trace :
   exists st, run tmR (Q2R eps) (ordf ordl) (init_state tmR (map Q2R h)) (map fst ops) = Some st /\
              stSolved st = solI /\
-             forall s, (s < nS)%nat ->
-               Rabs (sV st s - untab (map Q2R VI) s) <= Q2R tol * (1 + Rabs (untab (map Q2R VI) s)).
+             (forall s, (s < nS)%nat ->
+               Rabs (sV st s - untab (map Q2R VI) s) <= Q2R tol * (1 + Rabs (untab (map Q2R VI) s))) /\
+             (forall s, (s < nS)%nat -> sSol st s = true -> absflag tmR s = false ->
+               sAct st s = nth s actI 0%nat).
 Proof.
   pose proof Hrpl as H. rewrite replay_check_transfer in H. fold tmR in H.
   unfold replay_check in H.
   destruct (run_cmp tmR (Q2R eps) (ordf ordl) (Q2R tol) (init_state tmR (map Q2R h)) (opsR ops))
     as [[st b]|] eqn:E; [|discriminate].
-  unfold all_true4 in H. injection H as Hb Hs Hv. exists st. split; [|split].
+  unfold all_true5 in H. injection H as Hb Hs Hv Ha. exists st. split; [|split; [|split]].
   - apply run_cmp_run in E. unfold opsR in E. rewrite map_map in E. simpl in E. exact E.
   - apply beqlist_eq. exact Hs.
   - intros s Hs'. rewrite forallbn_spec in Hv. specialize (Hv s Hs').
     apply vclose_R in Hv. exact Hv.
+  - intros s Hs' Hsol Hab. rewrite forallbn_spec in Ha. specialize (Ha s Hs').
+    change (nth s ab false) with (absflag tmR s) in Ha.
+    rewrite Hsol, Hab in Ha. simpl in Ha. now apply Nat.eqb_eq in Ha.
 Qed.
 
 End Trace.
